@@ -240,10 +240,11 @@ type cpXfer struct {
 	op     int
 	done   bool
 	// verifyOnly stops after VerifyCatchpoint (C15 attempts); verified reports its verdict
-	verifyOnly bool
-	verified   bool
-	beforeTrie func() // C15: called after the last section was staged, before BuildMerkleTrie
-	crashes    int
+	verifyOnly  bool
+	verified    bool
+	beforeTrie  func() // C15: called after the last section was staged, before BuildMerkleTrie
+	crashes     int
+	midSwitched bool
 }
 
 var cpCtx = context.Background()
@@ -513,14 +514,12 @@ func (x *cpXfer) stageSwitch() error {
 		}
 		x.s.stat("c16.crash_mid_switch", 1)
 		x.crashes++
+		x.midSwitched = true
 		x.s.log.Add("    consumer %d CRASH inside CompleteCatchup (blocks switched, balances not)", x.c.id)
 		if err := x.c.crash(x.s); err != nil {
 			return fmt.Errorf("%w: OpenLedger on the image of a crash between CompleteCatchup's block-DB and tracker-DB transactions failed: %v", errCpMidSwitch, err)
 		}
 		return errCpResume
-	}
-	if d := os.Getenv("CP_DEBUG_DUMPDIR"); d != "" {
-		copyDir(x.c.dir, filepath.Join(d, fmt.Sprintf("c%d-step%d", x.c.id, x.s.step)))
 	}
 	if err := x.acc.CompleteCatchup(cpCtx); err != nil {
 		if errors.Is(err, context.Canceled) {
@@ -668,9 +667,7 @@ func (o *cpObs) transferRound(s *Sim, f *cpFile, rg *rand.Rand, benign bool) {
 		if c, err := cpDecodeContent(rs); err == nil && c.Partial > 0 {
 			s.stat("c16.split_account_chunks", 1)
 		}
-		if os.Getenv("CP_DEBUG_NORECHUNK") == "" {
-			secs = rs
-		}
+		secs = rs
 		s.stat("c16.rechunked", 1)
 		desc += fmt.Sprintf(" rechunk%+v->%d sections", lim, len(secs))
 	}
@@ -796,7 +793,7 @@ func (o *cpObs) transferRound(s *Sim, f *cpFile, rg *rand.Rand, benign bool) {
 		o.afterReject(s, c, f, x, rg)
 	default:
 		key := "transfer-error"
-		if errors.Is(err, errCpMidSwitch) {
+		if errors.Is(err, errCpMidSwitch) || x.midSwitched {
 			key = "crash-mid-switch"
 		} else if x.crashes > 0 {
 			key = "after-crash"
